@@ -3,6 +3,7 @@ package main
 import (
 	"flag"
 	"fmt"
+	"go/types"
 	"os"
 	"path/filepath"
 	"sort"
@@ -49,7 +50,7 @@ func main() {
 	_ = fs.Parse(os.Args[2:])
 
 	opts := Options{Verbose: *verbose, Jobs: *jobs, Keep: *keep}
-	opts.TimeoutS = 10
+	opts.TimeoutS = 20
 	if *tier == "thorough" {
 		opts.TimeoutS = 60
 	}
@@ -73,6 +74,7 @@ func main() {
 	if err != nil {
 		fatal(err)
 	}
+	e.verifDir = *verif
 	if err := e.loadContracts(filepath.Join(*verif, "contracts", "extern")); err != nil {
 		fatal(err)
 	}
@@ -270,6 +272,25 @@ func (e *Engine) verifyFunctions(keys []string, propFilter func(*Obligation) boo
 }
 
 func (e *Engine) verifyOne(fn *ssa.Function, fc *FuncContract) *FuncResult {
+	// per-function registries: the VCs of a function must not depend on which functions were
+	// verified before it in the same run (proof-cache keys, reproducibility)
+	e.tids = map[string]int{}
+	e.tidType = map[int]types.Type{}
+	// (the string-literal registry is not reset: literal names are hashes of their contents and the
+	// axioms emitted at solve time cover exactly the literals an obligation mentions)
+	strideSy = e.sy
+	opaqueStride = fc != nil && fc.OpaqueStrides
+	if !opaqueStride && fn.Parent() != nil {
+		// closures follow the function they are declared in
+		root := fn
+		for root.Parent() != nil {
+			root = root.Parent()
+		}
+		if pc := e.ct.Funcs[funcKey(root)]; pc != nil && pc.OpaqueStrides {
+			opaqueStride = true
+		}
+	}
+	defer func() { opaqueStride = false }()
 	v := e.NewVerifier(fn, fc)
 	fr := &FuncResult{Key: v.key, HasBody: len(fn.Blocks) > 0}
 	if fc != nil {
@@ -354,17 +375,33 @@ func nameInstances(obs []*Obligation) {
 func (e *Engine) background(used map[string]bool) []*Term {
 	var ax []*Term
 	ax = append(ax, e.stringAxioms(used)...)
-	if used["str_lt"] {
+	if used["str_rank"] {
 		a := &Term{op: "const", name: "sa", sort: SStr}
-		b := &Term{op: "const", name: "sb", sort: SStr}
-		c := &Term{op: "const", name: "sc", sort: SStr}
-		lt := func(x, y *Term) *Term { return mk("str_lt", SBool, x, y) }
+		rank := func(x *Term) *Term { return e.sy.App("str_rank", SReal, x) }
 		ax = append(ax,
-			Forall([]*Term{a}, Not(lt(a, a))),
-			Forall([]*Term{a, b, c}, Implies(And(lt(a, b), lt(b, c)), lt(a, c))),
-			Forall([]*Term{a, b}, Or(lt(a, b), mk("=", SBool, a, b), lt(b, a))),
-			Forall([]*Term{a}, Not(lt(a, e.strLit("")))),
+			// injective: equal ranks mean equal strings
+			ForallPat([]*Term{a}, mk("=", SBool, e.sy.App("str_unrank", SStr, rank(a)), a), []*Term{rank(a)}),
+			// the empty string is the least one
+			ForallPat([]*Term{a}, mk(">=", SBool, rank(a), rank(e.strLit(""))), []*Term{rank(a)}),
 		)
+	}
+	{
+		var ns []string
+		for n := range used {
+			if strings.HasPrefix(n, "stride") {
+				ns = append(ns, n)
+			}
+		}
+		sort.Strings(ns)
+		for _, n := range ns {
+			var k int64
+			if _, err := fmt.Sscanf(n, "stride%d", &k); err != nil || k <= 1 {
+				continue
+			}
+			x := &Term{op: "const", name: "sx", sort: SInt}
+			app := e.sy.App(n, SInt, x)
+			ax = append(ax, ForallPat([]*Term{x}, mk("=", SBool, app, Mul(x, IntLit(k))), []*Term{app}))
+		}
 	}
 	if used["mod"] && e.withLemmas {
 		// arithmetic lemmas (valid in integer arithmetic; they only help instantiation)
